@@ -8,6 +8,7 @@ from ..gen import steps as G
 from ..hist import MBOXES, Runner, norm_flags
 from ..run import CaseResult, open_ids
 
+from . import c01_conc as CONC
 ID = "C13"
 LEVEL = "exploration"
 RULE = (
@@ -36,6 +37,10 @@ def step_expunge_top(n):
 
 
 def strategy(tier, shard, nshards):
+    # every fourth shard: commands of 2-3 sessions in flight while an MH agent delivers (c01_conc.py, judged
+    # here by "a message delivered unseen and never fetched stays unseen, for IMAP and in .mh_sequences")
+    if shard % 4 == 1:
+        return CONC.strategy()
     n = 2
     step = st.one_of(
         G.step_select(n), G.step_deliver(3), G.step_deliver(3), G.step_deliver(3), G.step_advance(), G.step_advance(),
@@ -177,6 +182,8 @@ class C13Runner(Runner):
 
 
 def execute(trace) -> CaseResult:
+    if trace.get("kind") == "concurrent":
+        return CONC.execute(trace, ID)
     h = C13Runner(trace)
 
     async def main():
